@@ -79,7 +79,7 @@ NESTED_BREAK_OK = {
 }
 
 
-def monitor(events, dev):
+def monitor(events, dev, host_events=None):
     """Temporal monitors over the raw firmware trace of one path -> list of problems (empty = fine)."""
     problems = []
     mode = {}
